@@ -372,6 +372,43 @@ theorem divideAtPoint_terms [DecidableEq F] (P : Term → Prop)
     simp [termsOf] at ht
   · exact divLoop_terms P hrem hquot z nv 0 p h
 
+/-- a predicate that survives dividing out one variable and bounds the variables by `k ≤ |z|`
+keeps every `point[i]` of `divide_at_point` in range -/
+theorem divIndexOk_of [DecidableEq F] (P : Term → Prop)
+    (hrem : ∀ u i k, P u → Term.find? i u = some k → P (Term.new (Term.erase i u)))
+    (k : Nat) (hP : ∀ t, P t → ∀ q ∈ t, q.1 < k) (z : List F) (hk : k ≤ z.length)
+    (n i : Nat) (cur : MVPoly F) (h : ∀ t ∈ termsOf cur, P t) : divIndexOk z n i cur = true := by
+  induction n generalizing i cur with
+  | zero => rfl
+  | succ n ih =>
+    simp only [divIndexOk, Bool.and_eq_true, Bool.or_eq_true, decide_eq_true_eq,
+      Bool.not_eq_true']
+    refine ⟨?_, ?_⟩
+    · by_cases hi : i < z.length
+      · exact Or.inl hi
+      · right
+        rw [List.any_eq_false]
+        intro ct hct
+        have hmem : ct.2 ∈ termsOf cur := by
+          simp only [termsOf, List.mem_map]; exact ⟨ct, hct, rfl⟩
+        have hnone : Term.find? i ct.2 = none :=
+          find?_none_of_ne (fun q hq => by have := hP ct.2 (h ct.2 hmem) q hq; omega)
+        simp [termReads, hnone]
+    · refine ih (i + 1) _ ?_
+      intro t ht
+      obtain ⟨u, hu, hh⟩ := mem_divTerms_rem i _ cur t (mem_fromCoeffs_term _ t ht)
+      rcases hh with ⟨_, htu⟩ | ⟨k', hf, rfl⟩
+      · rw [htu]; exact h u hu
+      · exact hrem u i k' (h u hu) hf
+
+theorem divideOk_of [DecidableEq F] (P : Term → Prop)
+    (hrem : ∀ u i k, P u → Term.find? i u = some k → P (Term.new (Term.erase i u)))
+    (k : Nat) (hP : ∀ t, P t → ∀ q ∈ t, q.1 < k) (z : List F) (hk : k ≤ z.length)
+    (nv : Nat) (p : MVPoly F) (h : ∀ t ∈ termsOf p, P t) : divideOk nv p z = true := by
+  unfold divideOk
+  rw [divIndexOk_of P hrem k hP z hk nv 0 p h]
+  simp
+
 /-- "each monomial is univariate": the shape of blinding polynomials -/
 def isUni : Term → Bool
   | [] => true
@@ -796,6 +833,16 @@ theorem resizeTo_terms (P : Term → Prop) (n : Nat) (ws : List (MVPoly F))
   · exact h w hw t ht
   · simp [termsOf] at ht
 
+/-- an answered `open` passed the index guards: it is the result of `openCore` -/
+theorem openCombined_core (ck : CK F) (nvp nvr : Nat) (p r : MVPoly F) (z : List F) (π : Proof F)
+    (h : openCombined ck nvp nvr p r z = .ok π) : openCore ck nvp nvr p r z = .ok π := by
+  unfold openCombined at h
+  split at h
+  · cases h
+  · split at h
+    · cases h
+    · exact h
+
 /-- what `open` returns on the combined polynomials `(p̂, r̂)` — declared over `nvp`, `nvr ≤ nv`
 variables — under a well-formed key: the verifier's defect on `C = g·p̂(β⃗) + γ·r̂(β⃗)`,
 `V = p̂(z)` vanishes, and there is one witness per variable of the key. -/
@@ -807,7 +854,8 @@ theorem openCombined_defect (g γ h : F) (β : List F) (ts : List Term) (nv s D 
     (ho : openCombined (wfCK g γ β ts nv s D m) nvp nvr p r z = .ok π) :
     defectCombined (wfVK g γ h β nv s D) (g * evalMV p β + γ * evalMV r β) (evalMV p z) z π = 0
       ∧ π.w.length = nv := by
-  unfold openCombined at ho
+  have ho := openCombined_core _ _ _ _ _ _ _ ho
+  unfold openCore at ho
   simp only [wfCK] at ho
   split at ho
   · cases ho
@@ -1314,9 +1362,18 @@ theorem open_ok (g γ : F) (β : List F) (ts : List Term) (nv s D m : Nat)
   have hwlen := msmAll_length _ _ _ hw
   rw [resizeTo_length] at hwlen
   have hc' : combine (wfCK g γ β ts nv s D m).supportedDegree [] [] ps rs ξs = .ok c := hc
+  have hvb : ∀ (P : Term → Prop), (∀ t, P t → Term.varsBelow nv t = true) →
+      ∀ t, P t → ∀ q ∈ t, q.1 < nv := fun P hP t ht => (varsBelow_iff nv t).1 (hP t ht)
+  have hok1 : divideOk nvp c.1 z = true :=
+    divideOk_of (Covered nv s) (covered_rem nv s) nv (hvb _ (fun t ht => ht.2.1)) z hz nvp c.1 h1
+  have hok2 : divideOk nvr c.2.1 z = true :=
+    divideOk_of (UniCovered nv m) (uniCovered_rem nv m) nv (hvb _ (fun t ht => ht.2.1)) z hz
+      nvr c.2.1 h2
   unfold PST.open
   simp only [hc']
   unfold openCombined
+  simp only [hok1, hok2, Bool.not_true, Bool.and_false, Bool.false_eq_true, if_false]
+  unfold openCore
   simp only [hw]
   split
   · exact ⟨_, rfl⟩
@@ -1511,7 +1568,8 @@ theorem open_random_v (ck : CK F) (nvp nvr : Nat) (p r : MVPoly F) (z : List F) 
     · cases hcc
     · injection hcc with hcc
       subst hcc
-      unfold openCombined at ho
+      have ho := openCombined_core _ _ _ _ _ _ _ ho
+      unfold openCore at ho
       split at ho
       · cases ho
       · simp only at ho
